@@ -16,6 +16,9 @@ inductive Val where
   | int (i : Int)
   | arr (l : List Int)
   | obj (l : List (String × Val))
+  /-- any other value form (i64:… u64:… f32:… q:… rgb:… or a container holding one): only ever
+  offered to unknown fields, which ignore it; an int field offered one is a type error -/
+  | other
 
 structure Item where
   asI32 : Bool
@@ -81,21 +84,38 @@ def deliverBin (schema : Schema) (it : Item) : Key :=
     else if resolvable it.key then .str it.key else .str "__internal_identifier_ignore"
   | _, _ => .str it.key
 
+/-- split at `sep` outside of brackets -/
+def splitTop (sep : Char) (s : String) : List String :=
+  let (parts, cur, _) := s.toList.foldl (fun (acc : List String × List Char × Nat) c =>
+    let (parts, cur, depth) := acc
+    if c == '[' || c == '{' then (parts, c :: cur, depth + 1)
+    else if c == ']' || c == '}' then (parts, c :: cur, depth - 1)
+    else if c == sep && depth == 0 then (String.ofList cur.reverse :: parts, [], depth)
+    else (parts, c :: cur, depth)) ([], [], 0)
+  (String.ofList cur.reverse :: parts).reverse
+
 def parseVal (fuel : Nat) (s : String) : Option Val :=
   match fuel with
-  | 0 => none
+  | 0 => some .other
   | fuel + 1 =>
     if s.startsWith "[" then
       let body := ((s.drop 1).dropEnd 1).toString
-      if body.isEmpty then some (.arr []) else ((body.splitOn ".").mapM String.toInt?).map .arr
+      if body.isEmpty then some (.arr []) else
+        match (splitTop '.' body).mapM String.toInt? with
+        | some l => some (.arr l)
+        | none => some .other
     else if s.startsWith "{" then
       let body := ((s.drop 1).dropEnd 1).toString
       if body.isEmpty then some (.obj []) else
-        ((body.splitOn ";").mapM fun (it : String) =>
+        match (splitTop ';' body).mapM (fun (it : String) =>
           match it.splitOn "=" with
-          | [k, v] => (parseVal fuel v).map (k, ·)
-          | _ => none).map .obj
-    else s.toInt?.map .int
+          | k :: v :: rest => (parseVal fuel ("=".intercalate (v :: rest))).map (k, ·)
+          | _ => none) with
+        | some l => some (.obj l)
+        | none => some .other
+    else match s.toInt? with
+      | some i => some (.int i)
+      | none => some .other
 
 def parseItem (s : String) : Option Item :=
   match s.splitOn "=" with
@@ -103,7 +123,7 @@ def parseItem (s : String) : Option Item :=
     let v := "=".intercalate rest
     let (asId, k) := if k.startsWith "#" then (true, (k.drop 1).toString) else (false, k)
     let (asI32, k) := if k.startsWith "%" then (true, (k.drop 1).toString) else (false, k)
-    (parseVal 3 v).map fun v => { asI32, asId, key := k, val := v }
+    (parseVal 6 v).map fun v => { asI32, asId, key := k, val := v }
   | _ => none
 
 def parsePairs (s : String) : Option (List Item) :=
